@@ -15,7 +15,27 @@ import (
 )
 
 func universe(tier string) []*ukit.Spec {
-	return ukit.Universe(2, tier == "thorough")
+	out := ukit.Universe(2, tier == "thorough")
+	// one-ofs with an inlined discriminator whose members declare a second property of the discriminator's type (so that
+	// "another discriminator" exists as a single-feature mutation of them, see ukit.Mutations), and one-ofs without
+	// members
+	for _, k := range []ukit.Kind{ukit.KOneOfStr, ukit.KOneOfInt} {
+		t := &ukit.Spec{Kind: ukit.KString}
+		if k == ukit.KOneOfInt {
+			t = &ukit.Spec{Kind: ukit.KInt}
+		}
+		two := func(o *ukit.Spec) *ukit.Spec {
+			c := o.Clone()
+			c.Props = append(c.Props, ukit.Prop{Name: "_type", Type: t.Clone(), Required: true}, ukit.Prop{Name: "_alt", Type: t.Clone(), Required: true})
+			return c
+		}
+		out = append(out,
+			&ukit.Spec{Kind: k, Discriminator: "_type", Inlined: true, Members: []ukit.Member{
+				{KeyS: "a", KeyI: 1, Type: two(ukit.MapObjA("A"))}, {KeyS: "b", KeyI: 2, Type: two(ukit.MapObjB("B"))}}},
+			&ukit.Spec{Kind: k, Discriminator: "_type", Inlined: true},
+			&ukit.Spec{Kind: k, Discriminator: "_type", Inlined: false})
+	}
+	return out
 }
 
 // unrelated is a fixed set used as producers for every consumer.
@@ -296,7 +316,7 @@ func main() {
 			checkPair(r.Consumer, cs, pair{r.Producer, r.What}, "quick", &res)
 			return res.Findings
 		},
-		Rule: "every spec A of U_2 as consumer x producers {a second instance of A; A rebuilt from its own description (both directions; map-based schemas); every single-feature mutation of A at any depth (range shifted out of reach, leaf kind, container kind, enum value, property added/removed, object id, discriminator, member removed, required flag, bound dropped, item type); a fixed set of ~70 unrelated specs incl. all nil/non-nil (min,max) combinations for int, float, string and map sizes with overlapping and disjoint ranges}; each ValidateCompatibility call runs under the sorted and under every single deviating map iteration order; oracle: a verdict is returned (panic / stack exhaustion / hang are violations), same verdict in every order, A accepts itself, and pairs in the reference MustReject relation are rejected",
+		Rule: "every spec A of U_2 as consumer x producers {a second instance of A; A rebuilt from its own description (both directions; map-based schemas); every single-feature mutation of A at any depth (range shifted out of reach, leaf kind, container kind, enum value, property added/removed, object id, discriminator (for an inlined one: another property that every member declares with the same type; member-less one-ofs: renamed), member removed, required flag, bound dropped, item type); a fixed set of ~70 unrelated specs incl. all nil/non-nil (min,max) combinations for int, float, string and map sizes with overlapping and disjoint ranges}; each ValidateCompatibility call runs under the sorted and under every single deviating map iteration order; oracle: a verdict is returned (panic / stack exhaustion / hang are violations), same verdict in every order, A accepts itself, and pairs in the reference MustReject relation are rejected",
 		Assumptions: []string{
 			"nothing is claimed about pairs outside MustReject and reflexivity",
 			"any as consumer or producer is never in MustReject; int/int-enum and string/string-enum share a base kind",
